@@ -106,6 +106,30 @@ func FsPath(path string, flags FsFlags) (afero.Fs, error) {
 	return afero.NewBasePathFs(afero.NewOsFs(), path), nil
 }
 
+// removeTree removes the file or directory at name and, for a directory,
+// everything below it. It is used instead of afero's RemoveAll because
+// MemMapFs.RemoveAll removes every path that merely begins with the same
+// characters: removing the bucket "logs" took the buckets "logs2" and
+// "logs-archive" with it.
+func removeTree(fs afero.Fs, name string) error {
+	stat, err := fs.Stat(name)
+	if err != nil {
+		return err
+	}
+	if stat.IsDir() {
+		entries, err := afero.ReadDir(fs, name)
+		if err != nil {
+			return err
+		}
+		for _, entry := range entries {
+			if err := removeTree(fs, path.Join(name, entry.Name())); err != nil {
+				return err
+			}
+		}
+	}
+	return fs.Remove(name)
+}
+
 // cleanKeyPath reports whether the slash-separated path consists only of
 // segments an object key stored by this package can have: no empty, "." or
 // ".." segment.
